@@ -98,6 +98,8 @@ def _alarm(signum, frame):
 
 def bucket(ex):
     """(exception type, innermost bardolph frame) -> one root cause."""
+    if isinstance(ex, RecursionError):
+        return 'RecursionError'     # one root cause wherever it surfaces
     frames = traceback.extract_tb(ex.__traceback__)
     where = 'unknown'
     for frame in frames:
@@ -257,6 +259,38 @@ def evaluate(acc, text, must_reject=None, label='soup'):
                      text[:300], result.aborted,
                      '' if result.bad_pc is None
                      else 'pc = {}'.format(result.bad_pc)), case)
+
+
+def evaluate_file(acc, data):
+    """The same front end, fed a file of arbitrary bytes (what lsrun and the
+    web server do): it may reject the file, it may not raise."""
+    from bardolph.parser.parse import Parser
+    world()
+    directory = env.work_dir(ID, 'files-{}'.format(os.getpid()))
+    path = os.path.join(directory, 'noise.ls')
+    with open(path, 'wb') as dst:
+        dst.write(data)
+    try:
+        text = data.decode()
+        decodable = True
+    except UnicodeDecodeError:
+        decodable = False
+    acc.case(key=repr(data), nontrivial=not decodable,
+             labels=['file', 'undecodable' if not decodable else 'decodable'],
+             sample={'bytes': repr(data[:40])}
+             if not decodable and len(acc.samples) < 2 else None)
+    parser = Parser()
+    try:
+        ok = parser.parse_file(path)
+    except Exception as ex:
+        acc.fail('file-crash:' + bucket(ex),
+                 'parse_file raised {!r} on a file holding {!r}'.format(
+                     ex, data[:60]), {'kind': 'file', 'hex': data.hex()})
+        return
+    if ok and not decodable:
+        acc.fail('file-accepted-undecodable',
+                 'a file that is not text was accepted: {!r}'.format(
+                     data[:60]), {'kind': 'file', 'hex': data.hex()})
 
 
 # ---- generators ---------------------------------------------------------------------
@@ -514,6 +548,43 @@ def plausible(draw):
 
 
 @st.composite
+def deep(draw):
+    """One construct nested or chained n deep, closed properly or cut off."""
+    n = draw(st.sampled_from([30, 120, 170, 330, 600, 1200, 3000]))
+    shape = draw(st.sampled_from(
+        ['braces', 'parens', 'if', 'else-if', 'repeat', 'calls', 'minus',
+         'power', 'sum', 'and-list', 'not', 'begin']))
+    closed = draw(st.booleans())
+    if shape == 'braces':
+        text = 'assign x ' + '{' * n + '1' + ('}' * n if closed else '')
+    elif shape == 'parens':
+        text = 'assign x {' + '(' * n + '1' + (')' * n + '}' if closed else '')
+    elif shape == 'if':
+        text = 'if 1 ' * n + ('print 1' if closed else '')
+    elif shape == 'else-if':
+        text = 'if 0 wait ' + 'else if 0 wait ' * n + \
+            ('else wait' if closed else 'else')
+    elif shape == 'repeat':
+        text = 'repeat 1 ' * n + ('wait' if closed else '')
+    elif shape == 'calls':
+        text = 'assign x ' + '[sqrt ' * n + '4' + (']' * n if closed else '')
+    elif shape == 'minus':
+        text = 'assign x {' + '-' * n + '1' + ('}' if closed else '')
+    elif shape == 'power':
+        text = 'assign x {' + '1^' * n + '1' + ('}' if closed else '')
+    elif shape == 'sum':
+        text = 'assign x {' + '1+' * n + '1' + ('}' if closed else '')
+    elif shape == 'and-list':
+        text = 'repeat in ' + '"A" and ' * n + '"A" as q ' + \
+            ('wait' if closed else '')
+    elif shape == 'not':
+        text = 'assign x {' + 'not ' * n + '1' + ('}' if closed else '')
+    else:
+        text = 'begin ' * n + 'wait ' + ('end ' * n if closed else '')
+    return text
+
+
+@st.composite
 def rule_breakers(draw):
     """A valid script with exactly one documented violation injected."""
     case = draw(gen.programs(PROFILE))
@@ -583,7 +654,10 @@ def rule_breakers(draw):
             return text + '\nassign v { ( 1 + 2 }', 'unbalanced parenthesis'
         victim = draw(st.sampled_from(closers))
         which = tokens[victim]
-        del tokens[victim]
+        if draw(st.booleans()):
+            tokens[victim] = '"' + which + '"'    # a string is no closer
+        else:
+            del tokens[victim]
         return ' '.join(tokens), 'missing closing ' + which
     bad = draw(st.sampled_from(['25:00', '12:60', '1:5', '**:00', '8:0*0',
                                 '', '3*:00', '12']))
@@ -593,7 +667,7 @@ def rule_breakers(draw):
 def plan(tier, seed_value):
     specs = []
     per = {'soup': 32000, 'mutated': 12000, 'noise': 8000, 'rules': 4000,
-           'valid': 4000, 'plausible': 16000}
+           'valid': 4000, 'plausible': 16000, 'deep': 640}
     if tier == 'thorough':
         per = {k: v * 25 for k, v in per.items()}
     for k in range(16):
@@ -619,9 +693,20 @@ def run_shard(spec):
         'noise': st.one_of(st.text(max_size=80),
                            st.binary(max_size=80).map(
                                lambda b: b.decode('latin-1'))),
-        'rules': rule_breakers(), 'plausible': plausible(),
+        'rules': rule_breakers(), 'plausible': plausible(), 'deep': deep(),
         'valid': gen.programs(CONTROL_PROFILE).map(
             lambda case: printer.to_text(case['program']))}[kind]
+
+    if kind == 'noise':
+        @seed(spec['seed'] + 7)
+        @progbase.hyp_settings(max(20, spec['examples'] // 10))
+        @given(st.one_of(
+            st.binary(max_size=40),
+            st.tuples(st.sampled_from([b'on all\n', b'print "', b'# ']),
+                      st.binary(min_size=1, max_size=6)).map(b''.join)))
+        def run_files(data):
+            evaluate_file(acc, data)
+        run_files()
 
     @seed(spec['seed'])
     @progbase.hyp_settings(spec['examples'])
@@ -638,6 +723,9 @@ def run_shard(spec):
 
 def replay(case):
     acc = Acc()
+    if case.get('kind') == 'file':
+        evaluate_file(acc, bytes.fromhex(case['hex']))
+        return [(f['sig'], f['what']) for f in acc.failures.values()]
     evaluate(acc, case['text'], case.get('must_reject'), 'replay')
     return [(f['sig'], f['what']) for f in acc.failures.values()]
 
@@ -645,6 +733,8 @@ def replay(case):
 def shrink(failure):
     """ddmin over white-space separated tokens, same signature."""
     import time
+    if failure['case'].get('kind') == 'file':
+        return failure
     text = failure['case']['text']
     must = failure['case'].get('must_reject')
     if must:
